@@ -136,11 +136,11 @@ func ruleR18a(c *Ctx, r *Report) {
 		r.InfraFail("%v", err)
 		return
 	}
-	if len(fn.AnonFuncs) < 1 {
+	if len(closuresOf(fn)) < 1 {
 		r.Undec("handlers@"+fnKey(fn), c.Pos(fn.Pos()), "extractElement closure not found")
 		return
 	}
-	el := fn.AnonFuncs[0]
+	el := closuresOf(fn)[0]
 	// constants the type switch compares DataType.Int() with
 	handled := map[int64]bool{}
 	eachInstr(el, func(in ssa.Instruction) {
